@@ -122,13 +122,13 @@ class Run:
         self.transitions += st["generated"]
         return p.stdout, st
 
-    def tlc_replay(self, module, family, cfg=None, workers=None, extra=(), timeout=900, heap="6g", replay_args=()):
+    def tlc_replay(self, module, family, cfg=None, workers=None, extra=(), timeout=900, heap="6g", replay_args=(), tool="replay"):
         """Run TLC with its stdout piped into `vh replay`; return (summary, mismatches, stats)."""
         cmd = self.tlc_cmd(module, cfg, workers, extra, heap)
         mis = os.path.join(self.scratch, family + ".mis.ndjson")
         summ = os.path.join(self.scratch, family + ".sum.json")
         log = os.path.join(self.scratch, family + ".tlc.log")
-        rcmd = [self.vh, "replay", "--family", family, "--out", mis, "--summary", summ, "--log", log] + list(replay_args)
+        rcmd = [self.vh, tool, "--family", family, "--out", mis, "--summary", summ, "--log", log] + list(replay_args)
         t0 = time.time()
         tl = subprocess.Popen(cmd, cwd=self.scratch, stdout=subprocess.PIPE, stderr=subprocess.STDOUT)
         rp = subprocess.Popen(rcmd, cwd=self.scratch, stdin=tl.stdout, stdout=subprocess.PIPE, stderr=subprocess.PIPE, text=True)
@@ -155,7 +155,7 @@ class Run:
         self.replayed += S["lines"]
         self.executions += S["executions"]
         self.distinct += S["distinct_outcomes"]
-        for s in S.get("samples", [])[:3]:
+        for s in (S.get("samples") or [])[:3]:
             if len(self.samples) < 12:
                 self.samples.append("[%s] %s" % (family, s))
         self.families.append({"family": family, "tlc_states_generated": st["generated"], "tlc_distinct_states": st["distinct"],
